@@ -62,6 +62,8 @@ func allCases(d *Driver, path string, seed int64, tier string) ([]json.RawMessag
 	return cs, nil
 }
 
+var hangConfirmed bool
+
 const (
 	exitHang  = 3
 	exitRace  = 66
@@ -85,6 +87,12 @@ func runChild(d *Driver, casesPath, outPath string, from int, progress string, s
 	timeout := 10 * time.Second
 	if d.PerCaseTimeoutMs > 0 {
 		timeout = time.Duration(d.PerCaseTimeoutMs) * time.Millisecond
+	}
+	// A case that merely runs slowly on a loaded machine is not a hang: until one hang has been
+	// confirmed in this run the watchdog waits at least a minute (a real non-termination is still
+	// caught); afterwards the driver's own short limit applies so that a hanging tree is reported soon.
+	if !hangConfirmed && timeout < 60*time.Second {
+		timeout = 60 * time.Second
 	}
 	lastProgress := -1
 	for i := from; i < len(cs); i++ {
@@ -141,10 +149,12 @@ func runParent(d *Driver, prop, casesPath, outPath string, seed int64, tier stri
 	defer os.Remove(progress)
 	from := 0
 	abnormal := 0
+	hangs := false
 	for from < len(cs) {
 		os.Remove(progress)
 		cmd := exec.Command(os.Args[0], "-child", "-prop", prop, "-cases", casesPath, "-out", outPath,
-			"-from", strconv.Itoa(from), "-progress", progress, "-seed", strconv.FormatInt(seed, 10), "-tier", tier)
+			"-from", strconv.Itoa(from), "-progress", progress, "-seed", strconv.FormatInt(seed, 10), "-tier", tier,
+			"-hangconfirmed="+strconv.FormatBool(hangs))
 		cmd.Stdout = os.Stderr
 		stderr := &tailBuf{max: 4000}
 		cmd.Stderr = stderr
@@ -183,6 +193,7 @@ func runParent(d *Driver, prop, casesPath, outPath string, seed int64, tier stri
 			fmt.Fprintf(os.Stderr, "driver: case %d crashed the child (exit %d): %s\n", k, code, lastLines(stderr.String(), 6))
 		} else {
 			fmt.Fprintf(os.Stderr, "driver: case %d hung\n", k)
+			hangs = true
 		}
 		abnormal++
 		if abnormal > 200 {
